@@ -524,7 +524,7 @@ def run(rep, tier, seed, only=None):
         "float()/int() in ESFResult.get_raw are the identity on reals (shimmed for symbols)",
     )
     rep.stub("yaml, numpy savez/load, tarfile, tempfile, pathlib -> in-memory contract stubs", "result.float -> identity on symbols")
-    for nm, f in (("results", sec_results), ("roundtrip", sec_roundtrip), ("samepath", sec_same_path), ("real", sec_real_io)):
+    for nm, f in (("results", sec_results), ("roundtrip", sec_roundtrip), ("samepath", sec_same_path), ("names", H.observable_names_contract), ("real", sec_real_io)):
         if only and only not in nm:
             continue
         rep.add(guarded(f"C15/{nm}", lambda f=f: (f(rep), [])[1]))
